@@ -13,6 +13,8 @@ ops:  add <w> <x> | flush <w> | wait <w> | tick | rel <first task of batch> ok|p
                                                next time it passes that point (AddTask said full / not full,
                                                RemoveAll of addAndCheck done, RemoveAll of Flush done)
       unhold <w>                               disarm and release caller w
+      hold bg fremoved | unhold bg             the same for the background flusher(s): parked inside the RemoveAll of
+                                               the tick / quit Flush
       bhold <w>                                caller w takes pe.wgBarrier and parks inside it (skip if it is taken)
       brel wait|flush|none                     that caller releases it and goes straight on with Wait / Flush / nothing
       (a task is the number 8*id + byte size; only the chunk executor looks at the size)
@@ -56,7 +58,12 @@ def holdPc (pt : String) (pc : Pc) : Bool :=
 
 abbrev Holds := List (Nat × String)
 
-def isHeld (holds : Holds) (t : Nat) (pc : Pc) : Bool := holds.any fun h => h.1 == t && holdPc h.2 pc
+/-- `bgHold` stands for "every background flusher" in the hold list -/
+def bgHold : Nat := 1000000
+
+def isHeld (holds : Holds) (t : Nat) (pc : Pc) : Bool :=
+  holds.any fun h => (h.1 == t || (h.1 == bgHold && (match pc with | .fUnlock .tick => true | .fUnlock .quit => true | _ => false)))
+    && holdPc h.2 pc
 
 def inCallback (pc : Pc) : Bool := match pc with | .fCall _ => true | .bCall => true | _ => false
 
@@ -132,7 +139,8 @@ def sortStr (l : List String) : List String := l.foldr insertStr []
 def visible (d : DCfg) (holds : Holds) (bholder : Option Nat) (finSeen : List Nat) (s : St) : String :=
   let ws := ((s.thr.take (d.P + 1)).zipIdx).map fun (th, t) =>
     if bholder = some t then "bhold" else if isHeld holds t th.pc then "hold" else classOf th.pc
-  let fls := sortStr (((s.thr.drop (d.P + 1)).filter fun th => th.pc ≠ .idle).map fun th => classOf th.pc)
+  let fls := sortStr (((s.thr.drop (d.P + 1)).filter fun th => th.pc ≠ .idle).map fun th =>
+    if isHeld holds bgHold th.pc then "hold" else classOf th.pc)
   let cbs := sortStr ((s.thr.filter fun th => inCallback th.pc).map fun th => showList "." th.reg)
   let nf := sortNat (s.finished.filter fun x => !finSeen.contains x)
   s!"w={",".intercalate ws} fl={if fls.isEmpty then "-" else ",".intercalate fls} c={showList "," s.container} " ++
@@ -214,6 +222,10 @@ def applyOp (d : DCfg) (holds : Holds) (bholder : Option Nat) (s : St) : List St
     let s' ← (step d.cfg s t (.cbEnd (how = "panic"))).map normGhost
     let (q, ex) := closure (internalSucc d false holds) fuel [s'] [] []
     pure (q, ex, "")
+  | ["hold", "bg", pt] => if pt = "fremoved" then some ([s], false, "") else none
+  | ["unhold", "bg"] =>
+    let (q, ex) := closure (internalSucc d false holds) fuel [s] [] []
+    some (q, ex, "")
   | ["hold", w, pt] => do
     let w ← w.toNat?
     if w ≥ d.P ∨ ¬ (["full", "notfull", "removed", "fremoved"].contains pt) then none else
@@ -277,6 +289,8 @@ def callOf (bholder : Option Nat) : List String → Spec.Call
 
 /-- holds after this line (only if the implementation did not skip it) -/
 def holdsAfter (holds : Holds) : List String → Holds
+  | ["hold", "bg", pt] => holds.filter (fun h => h.1 != bgHold) ++ [(bgHold, pt)]
+  | ["unhold", "bg"] => holds.filter (fun h => h.1 != bgHold)
   | ["hold", w, pt] => match w.toNat? with
     | some w => holds.filter (fun h => h.1 != w) ++ [(w, pt)]
     | none => holds
@@ -340,6 +354,10 @@ def runLine (d : DCfg) (kind : String) (max : Int) (sec : Nat) (acc : Report × 
     -- container never holds a full batch
     if max ≥ 1 ∧ bytesOf kind cont ≥ max ∧ !(ws.contains "hold") then
       r := r.violation sec l.idx s!"the size threshold is reached ({kind} container holds {bytesOf kind cont} >= max {max}: {showList "," cont}) but the batch was not taken out for execution"
+    -- "executed on the periodic flush": while tasks are pending in the container and every caller is back, a
+    -- background flusher must exist (parked in its select, or busy)
+    if cont.length > 0 ∧ ws.all (· == "idle") ∧ kvStr l.obs "fl" "-" = "-" then
+      r := r.violation sec l.idx s!"tasks {showList "," cont} are pending in the container but no background flusher exists: they will not be executed on the periodic flush"
     if l.op = ["drain"] then
       let all := parseNats (kvStr l.obs "all" "-")
       for msg in ds.mon.final all do r := r.violation sec l.idx msg
@@ -368,6 +386,7 @@ def runLine (d : DCfg) (kind : String) (max : Int) (sec : Nat) (acc : Report × 
     if ws.contains "hold" ∧ fls.contains "flock" then r := r.addCover "tick-taken-while-caller-holds-lock"
     if ws.contains "hold" ∧ ws.contains "flock" then r := r.addCover "flush-or-wait-while-caller-holds-lock"
     if ws.contains "hold" ∧ ws.contains "alock" then r := r.addCover "add-while-caller-holds-lock"
+    if fls.contains "hold" ∧ ws.contains "alock" then r := r.addCover "add-while-flusher-holds-lock-in-tick-flush"
     -- input class: somebody is parked at the wait-group barrier (before wg.Add) when the barrier is released
     if l.op.head? = some "brel" then
       match ds.lastWs with
